@@ -383,6 +383,9 @@ def oracle(r):
         if abs(float(cs[0]) - math.cos(ang)) > 1e-12 or abs(float(cs[1]) - math.sin(ang)) > 1e-12:
             fails.append("cos/sin mismatch for box %s" % nm)
     area_a, area_b = area(P), area(Q)
+    if fails or area_a == 0 or area_b == 0:
+        # the polygons are not the boxes' rectangles: nothing below is meaningful
+        return fails or ["degenerate vertex polygon"], info
     true_i = true_inter_area(P, Q)
     true_iou = true_i / (area_a + area_b - true_i)
     amin = min(area_a, area_b)
